@@ -146,3 +146,93 @@ pub fn presolve_view(data: &crate::solver::DefaultProblemData<f64>) -> Option<Pr
         infbound: p.infbound,
     })
 }
+
+/// Index maps of one sparse cone expansion (second-order: u, v, D; generalised power: p, q, r, D).
+#[derive(Clone, Debug, Default)]
+pub struct SparseMapView {
+    pub kind: &'static str,
+    pub vecs: Vec<Vec<usize>>,
+    pub D: Vec<usize>,
+    pub dsigns: Vec<i8>,
+}
+
+/// Read-only copy of the assembled KKT matrix and of every index map into it.
+#[derive(Clone, Debug, Default)]
+pub struct KKTView {
+    pub n: usize,
+    pub m: usize,
+    pub p: usize,
+    pub dim: usize,
+    pub colptr: Vec<usize>,
+    pub rowval: Vec<usize>,
+    pub nzval: Vec<f64>,
+    pub map_P: Vec<usize>,
+    pub map_A: Vec<usize>,
+    pub map_Hs: Vec<usize>,
+    pub diagP: Vec<usize>,
+    pub diag_full: Vec<usize>,
+    pub sparse: Vec<SparseMapView>,
+    pub dsigns: Vec<i8>,
+    pub hsblocks: Vec<f64>,
+    pub diagonal_regularizer: f64,
+}
+
+pub(crate) fn kkt_view_of<T: crate::algebra::FloatT>(
+    K: &crate::algebra::CscMatrix<T>,
+    map: &crate::solver::core::kktsolvers::direct::LDLDataMap,
+    n: usize,
+    m: usize,
+) -> KKTView {
+    use crate::solver::core::kktsolvers::direct::SparseExpansionMap;
+    let sparse = map
+        .sparse_maps
+        .iter()
+        .map(|sm| match sm {
+            SparseExpansionMap::SOCExpansionMap(s) => SparseMapView {
+                kind: "soc",
+                vecs: vec![s.u.clone(), s.v.clone()],
+                D: s.D.to_vec(),
+                dsigns: vec![-1, 1],
+            },
+            SparseExpansionMap::GenPowExpansionMap(g) => SparseMapView {
+                kind: "genpow",
+                vecs: vec![g.p.clone(), g.q.clone(), g.r.clone()],
+                D: g.D.to_vec(),
+                dsigns: vec![-1, -1, 1],
+            },
+        })
+        .collect::<Vec<_>>();
+    let p = sparse.iter().map(|s| s.D.len()).sum();
+    KKTView {
+        n,
+        m,
+        p,
+        dim: K.n,
+        colptr: K.colptr.clone(),
+        rowval: K.rowval.clone(),
+        nzval: vec_of(&K.nzval),
+        map_P: map.P.clone(),
+        map_A: map.A.clone(),
+        map_Hs: map.Hsblocks.clone(),
+        diagP: map.diagP.clone(),
+        diag_full: map.diag_full.clone(),
+        sparse,
+        ..Default::default()
+    }
+}
+
+/// Assemble the KKT matrix for (P, A, cones) in the requested triangle, with all index maps.
+pub fn assemble_kkt(
+    P: &crate::algebra::CscMatrix<f64>,
+    A: &crate::algebra::CscMatrix<f64>,
+    cones: &[crate::solver::SupportedConeT<f64>],
+    triu: bool,
+) -> KKTView {
+    use crate::algebra::MatrixTriangle;
+    use crate::solver::core::cones::CompositeCone;
+    use crate::solver::core::kktsolvers::direct::assemble_kkt_matrix;
+    let cc = CompositeCone::<f64>::new(cones);
+    let shape = if triu { MatrixTriangle::Triu } else { MatrixTriangle::Tril };
+    let (K, map) = assemble_kkt_matrix(P, A, &cc, shape);
+    kkt_view_of(&K, &map, P.n, A.m)
+}
